@@ -499,6 +499,7 @@ class OverhangFilter(Module):
     def _sensitivity(self, dxprint):
         x = self.sig_in[0].state
         xprint = self.sig_out[0].state
+        dxprint = dxprint.copy()  # Accumulated during the sweep, so do not modify the caller's array
         dx = np.zeros_like(dxprint)
 
         # Size of the domain
@@ -508,7 +509,7 @@ class OverhangFilter(Module):
         dx_layer = int(np.sign(self.direction[dir_layer]))  # Iteration direction
         ind_layer = size[dir_layer]-1 if dx_layer >= 0 else 0  # Starting index (="ending" in response)
         if size[dir_layer] < 2:  # Only a base layer, which is directly transferred
-            return dxprint.copy()
+            return dxprint
 
         dir_orth1 = (dir_layer + 1) % 3
         dir_orth2 = (dir_layer + 2) % 3
